@@ -69,6 +69,9 @@ def gen_world(rng, tier):
         ext = list(base) + [rng.choice(alphabet)] if rng.random() < 0.5 else [rng.choice(alphabet)] + list(base)
         pats.append(ext)
     prefix = [rng.choice(alphabet) for _ in range(rng.choice([0, 0, 0, 1, 2]))]
+    if rng.random() < 0.08:
+        a = rng.choice(alphabet)
+        prefix = [a, a]  # a square front: RemoveFront(split) yields a repeated child
     if rng.random() < 0.12:
         pats = []  # pattern-free worlds: SplitZeros (a product of two non-atoms) applies
     r = rng.random()
@@ -92,8 +95,17 @@ def gen_pack(rng, world, flavour=None, allow_iterative=True):
     tracked = world["tracked"]
     lazy = lambda: rng.random() < 0.25  # noqa: E731
     initial = []
+    dup_stats = len(tracked) == 2 and tracked[0] == tracked[1]
     if rng.random() < 0.9:
-        initial.append({"t": "RemoveFront", "mask": _mask(rng, 0.2, (3, 4, 5, 6)), "lazy": lazy()})
+        initial.append(
+            {
+                "t": "RemoveFront",
+                "mask": _mask(rng, 0.2, (3, 4, 5, 6)),
+                "lazy": lazy(),
+                "split": rng.random() < 0.35,
+                "merge": dup_stats and rng.random() < 0.5,
+            }
+        )
     if not world["patterns"] and rng.random() < 0.7:
         initial.append({"t": "SplitZeros", "mask": _mask(rng, 0.15), "lazy": lazy()})
         if rng.random() < 0.5:
@@ -139,6 +151,7 @@ def gen_pack(rng, world, flavour=None, allow_iterative=True):
                     "foreign": rng.choice([None, None, "parent", "reduced"]),
                     "dup": rng.random() < 0.3,
                     "mask": exp_mask,
+                    "foreign_first": rng.random() < 0.5,
                 }
             ]
         ]
@@ -255,6 +268,7 @@ class Sim:
         self.rng = SimRandom(R["rng"]["policy"], R["rng"]["seed"])
         self.packets = 0
         self.cur_label = None
+        self.forward_triples = []
         self.armed = None
         self.slice_packets = 0
         self.budgets = []
@@ -399,6 +413,12 @@ class Sim:
         self.adds += 1
         self.clock.event()
         st = rule.strategy
+        if self.focus == "C11":
+            # what the forward rule looks like to a fixed-point analysis, independent of buckets
+            try:
+                self.forward_triples.append((start, tuple(ends), tuple(rule.shifts())))
+            except Exception:  # pylint: disable=broad-except
+                pass
         self.ctx.ev("add", start, tuple(ends), strat_id(st))
         if self.record:
             self.trace.append(("add", start, tuple(ends), strat_id(st)))
@@ -678,6 +698,24 @@ def check_forest_extraction(sim, ctx, start):
         if kk not in keyset:
             raise Violation("C11:rule-key-not-inserted", f"extracted rule {rule.comb_class} -> {rule.children} has forest key {kk}, which was never inserted")
         specval.check_rule_genuine(rule, sim.allowed, tag="C11")
+    # reverse rules are used only when no choice without them exists - judged on the rules
+    # themselves (not on the bucket label of their keys)
+    from comb_spec_searcher.strategies.rule import EquivalenceRule, ReverseRule
+    from ..ref import lfp as L
+
+    def is_rev(r):
+        # reverse forms that are equivalences count as equivalences (the library files them in
+        # the EQUIV bucket by design); only proper complement / quotient rules are meant
+        return isinstance(r, ReverseRule) and not isinstance(r, EquivalenceRule) and not r.is_equivalence()
+
+    rev_used = [r for r in rules if is_rev(r)]
+    if rev_used:
+        ctx.probe("reverse_rule_extracted")
+        if L.pumps(sim.forward_triples, root):
+            raise Violation(
+                "C11:unnecessary-reverse-rule",
+                f"a reverse rule ({rev_used[0].comb_class} -> {rev_used[0].children}) was handed out although the forward rules recorded so far are productive for the start class on their own",
+            )
     nonempty_needed = [k for k in needed if not (k[1] == () and WW.truth_empty(css.classdb.get_class(k[0])))]
     if len(rules) != len(nonempty_needed):
         raise Violation("C11:rules-vs-keys", f"{len(nonempty_needed)} non-empty extracted keys but {len(rules)} concrete rules")
@@ -714,8 +752,11 @@ def simplify_search(R):
         yield dict(R, pack=dict(pk, expansion=pk["expansion"][1:]))
     for sect in ("inferral", "initial", "symmetries"):
         for i, s in enumerate(pk[sect]):
-            if s.get("mask") is not None or s.get("lazy"):
+            if s.get("mask") is not None or s.get("lazy") or s.get("split") or s.get("merge"):
                 ns = dict(s, mask=None, lazy=False)
+                for flag in ("split", "merge"):
+                    if flag in ns:
+                        ns[flag] = False
                 yield dict(R, pack=dict(pk, **{sect: pk[sect][:i] + [ns] + pk[sect][i + 1 :]}))
     for j, st in enumerate(pk["expansion"]):
         for i, s in enumerate(st):
